@@ -129,3 +129,61 @@ def deep_resolve(e, defs: Dict[str, ast.expr], depth: int = 0):
                 return deep_resolve(defs[n.id], defs, depth + 1)
             return n
     return R().visit(_copy.deepcopy(e))
+
+
+_RESOLVED_CACHE: Dict[int, ast.AST] = {}
+
+
+def _fresh_object(v) -> bool:
+    """definitions that create a new mutable object (its identity matters to what follows): never inlined"""
+    if isinstance(v, (ast.List, ast.Dict, ast.Set)) and not (getattr(v, "elts", None) or getattr(v, "keys", None)):
+        return True
+    if isinstance(v, ast.Call):
+        nm = call_name(v)
+        if nm in ("copy", "deepcopy", "defaultdict", "deque", "set", "dict", "list") and (nm in ("copy", "deepcopy", "defaultdict", "deque") or not v.args):
+            return True
+        if isinstance(v.func, ast.Name) and v.func.id[:1].isupper():
+            return True
+        if isinstance(v.func, ast.Attribute) and v.func.attr[:1].isupper():
+            return True
+    return False
+
+
+def resolved_fn(fi: FuncInfo) -> ast.AST:
+    """A copy of the function in which every Load of a single-definition local is replaced by its (recursively resolved) definition.
+    Templates written without temporaries match this view whether or not the analysed code names its intermediate values, and whether
+    the temporary is used once or several times.  The defining assignments stay in place; line numbers are those of the original nodes."""
+    from .core import set_parents
+    key = id(fi.node)
+    if key not in _RESOLVED_CACHE:
+        import copy as _copy
+        sd = {k: v for k, v in single_defs(fi).items() if not _fresh_object(v)}
+        # a local defined inside a loop and used outside of it, or defined after its first use, is still resolved: templates
+        # describe shapes, the flow-sensitive questions are asked by the path walker on the original tree
+        fn = _copy.deepcopy(fi.node)
+
+        class R(ast.NodeTransformer):
+            def visit_Name(self, n):
+                if isinstance(n.ctx, ast.Load) and n.id in sd and not any(isinstance(x, ast.Name) and x.id == n.id for x in ast.walk(sd[n.id])):
+                    new = deep_resolve(sd[n.id], sd)
+                    return ast.copy_location(new, n) if hasattr(new, "lineno") else new
+                return n
+
+            def visit_FunctionDef(self, n):
+                if n is fn:
+                    self.generic_visit(n)
+                return n
+
+            def visit_Lambda(self, n):
+                # parameters of the lambda shadow outer locals
+                shadow = {a.arg for a in n.args.args}
+                if shadow & set(sd):
+                    return n
+                self.generic_visit(n)
+                return n
+
+        fn = R().visit(fn)
+        ast.fix_missing_locations(fn)
+        set_parents(fn)
+        _RESOLVED_CACHE[key] = fn
+    return _RESOLVED_CACHE[key]
